@@ -1,6 +1,10 @@
 #!/bin/sh
-# Build the harness (offline) against /repo's working tree.
+# Build the harness (offline) against /repo's working tree: the checked build used by most
+# checks and the ASan build used by C02's quick tier. Other variants (valgrind/rel, Miri, TSan)
+# are built on demand by the thorough tier.
 set -e
 cd "$(dirname "$0")/harness"
 export CARGO_NET_OFFLINE=true
 RUSTFLAGS="--cfg jxl_oxide_verif" cargo build --offline --profile chk -p vcheck
+RUSTFLAGS="-Zsanitizer=address -Cforce-frame-pointers=yes --cfg jxl_oxide_verif" \
+  cargo +nightly build --offline --release -p vcheck --target x86_64-unknown-linux-gnu --target-dir target-asan
